@@ -128,3 +128,30 @@ def arow_insert_small(c0: int, c1: int, x: int, rn: int, q: int) -> bool:
     post: _
     """
     return arow_insert(c0, c1, x, rn, q)
+
+
+def acell_clone(x: int, y: int, has_x: bool, has_y: bool, rep: int, edit_clone: bool) -> bool:
+    """
+    pre: 0 <= x <= 3 and 0 <= y <= 3 and 1 <= rep <= 3
+    post: _
+    """
+    # Cell.clone / Row.clone: equal at birth - XML, repeat count AND the cached position (0 included,
+    # None when the cell was never placed) - and independent afterwards
+    c = Cell(5, repeated=rep if rep > 1 else None)
+    c.x = x if has_x else None
+    c.y = y if has_y else None
+    k = c.clone
+    ok = k.x == c.x and k.y == c.y and (k.x is None) == (not has_x) and (k.y is None) == (not has_y)
+    ok = ok and S.canon(k._Element__element) == S.canon(c._Element__element) and k.repeated == c.repeated
+    a, b = (k, c) if edit_clone else (c, k)
+    before = S.canon(b._Element__element)
+    a.set_value(7)
+    a.x = 9
+    a.repeated = None
+    ok = ok and S.canon(b._Element__element) == before and b.x == (x if has_x else None) and b.get_value() == 5
+    row = Row()
+    row.append_cell(c, clone=False)
+    row.y = y if has_y else None
+    r2 = row.clone
+    ok = ok and r2.y == row.y and S.canon(r2._Element__element) == S.canon(row._Element__element) and r2._rmap == row._rmap and r2._rmap is not row._rmap
+    return done(ok)
